@@ -4,8 +4,9 @@ import DepsDev.Model.Resolve.Pypi
 # Decidable hypotheses of the C08 `_partial` theorems (evaluated on the model's run)
 
 `noLateExtras` is the hypothesis whose negation classifies finding F-C08-extras,
-`routeClosed` the one whose negation classifies F-C08-route, `u4` the property's own
-quantifier restriction. The driver prints the first two for the `classify` op; the
+`routeClosed` the one whose negation classifies F-C08-route, `noStale` the one whose
+negation classifies F-C08-stale, `u4` the property's own quantifier restriction. The
+driver prints the first three for the `classify` op; the
 harness mirrors them on its Go port of the model (`harness/cmd/c08/sim.go`), the
 runner diffs the two.
 -/
@@ -39,6 +40,15 @@ def routeClosed (S : State) (ids : List (Nat × Ver)) : Bool :=
     match getCrit S.criteria pin.pkg with
     | none => true
     | some c => !(c.info.any fun (_, par) => idsGet ids par.pkg == some par) || (idsGet ids pin.pkg).isSome
+
+/-- no stale information: every requirement recorded in the criterion of a node's
+package was placed by a version that is itself a node (so the criterion's requirements
+are exactly the edges into the node) -/
+def noStale (S : State) (ids : List (Nat × Ver)) : Bool :=
+  ids.all fun (p, _) =>
+    match getCrit S.criteria p with
+    | none => true
+    | some c => c.info.all fun (_, par) => idsGet ids par.pkg == some par
 
 def distinctPkgs : List Req → Bool
   | [] => true
